@@ -62,7 +62,7 @@ impl r2d2::ManageConnection for R2 {
     }
     fn has_broken(&self, _c: &mut Val) -> bool {
         let t = self.sh.0.lock().unwrap().cur_gate;
-        wait_gate(&self.sh, t);
+        if kind(&self.sh) == "blocking" { wait_gate(&self.sh, t); }     // on the async thread nobody could open the gate
         let o = self.sh.0.lock().unwrap().backend["has_broken"].as_bool().unwrap_or(false);
         ev(&self.sh, json!(["backend", "has_broken", kind(&self.sh), o]));
         if o { finish(&self.sh, t); }
